@@ -132,6 +132,18 @@ def handleBatch (st : BatchDrv) (stream op : String) (a : List String) : BatchDr
     | some c =>
       let (c', ov) := Model.LRU.get c (ofHex! key)
       ({ st with lrus := alSet st.lrus id.toNat! c' }, "ok " ++ (match ov with | none => "-" | some v => hexOf v)))
+  -- concurrent stress followed by a sequential audit: after `naudit ≥ cap` fresh keys have been put one after the other,
+  -- an LRU cache holds exactly the last `cap` of them whatever happened before (every earlier key has been evicted), so
+  -- the expected audit is the run of the model from the empty cache; the stress keys all miss
+  | "C2", "lru.stress", [cap, nkeys, _, _, _, naudit, nvals] =>
+    let cap := cap.toNat!; let naudit := naudit.toNat!; let nvals := nvals.toNat!; let nkeys := nkeys.toNat!
+    if naudit < cap ∨ nvals = 0 then (st, "bad-op") else
+    let akey (i : Nat) : Bytes := ⟨#[UInt8.ofNat (0xA0 + i)]⟩
+    let c1 := (List.range naudit).foldl (fun c i => Model.LRU.put c (akey i) (some ⟨#[UInt8.ofNat (i % nvals)]⟩)) (Model.LRU.new cap)
+    let (_, toks) := (List.range naudit).foldl (fun (acc : Model.LRU.State Bytes Bytes × List String) i =>
+      let (c', ov) := Model.LRU.get acc.1 (akey i)
+      (c', acc.2 ++ [match ov with | none => "-" | some v => toString (v.get! 0).toNat])) (c1, [])
+    (st, "ok " ++ " ".intercalate (toks ++ List.replicate nkeys "-"))
   | "C2", "lru.lin", [_, "panic"] => (st, "panic runtime")   -- the recorded concurrent run crashed
   | "C2", "lru.lin", cap :: evs =>
     (match evs.mapM parseEv with
